@@ -328,40 +328,42 @@ func (c *Ctx) checkSubstitutionBranch() {
 		L.Bad("substitute-branch", r.label, "running maximum", c.P.Pos(r.F.Pos()), "no store to max in the workers")
 	} else {
 		b := maxStore.Block()
-		okGuard := false
-		for _, p := range b.Preds {
-			if ifi, ok := p.Instrs[len(p.Instrs)-1].(*ssa.If); ok && p.Succs[0] == b && len(b.Preds) == 1 {
-				if bo, ok := ifi.Cond.(*ssa.BinOp); ok && bo.Op == token.GTR && bo.X == maxStore.Val {
-					okGuard = true
-				}
-				if bo, ok := ifi.Cond.(*ssa.BinOp); ok && bo.Op == token.GTR {
-					glc := newLinCtx(c, maxStore.Parent())
-					if sameOperand(bo.X, maxStore.Val) || glc.canon(bo.X) == glc.canon(maxStore.Val) {
-						okGuard = true
-					}
-				}
-			}
+		wf := maxStore.Parent()
+		bf := computeBranchFacts(wf)
+		glc := newLinCtx(c, wf)
+		same := func(a, bb ssa.Value) bool { return a == bb || sameOperand(a, bb) || glc.canon(a) == glc.canon(bb) }
+		isMaxLoad := func(v ssa.Value) bool {
+			u, ok := v.(*ssa.UnOp)
+			return ok && u.Op == token.MUL && u.X == maxStore.Addr
 		}
-		// the three tests' false edges all dominate the max update
+		// the store is reached only when `value > max` is known true …
+		okGuard := false
+		allInstrs(wf, func(in ssa.Instruction) {
+			bo, ok := in.(*ssa.BinOp)
+			if !ok {
+				return
+			}
+			var g bool
+			switch bo.Op {
+			case token.GTR:
+				g = same(bo.X, maxStore.Val) && isMaxLoad(bo.Y)
+			case token.LSS:
+				g = same(bo.Y, maxStore.Val) && isMaxLoad(bo.X)
+			}
+			if g && bf.knownAt(b, bo, true) {
+				okGuard = true
+			}
+		})
+		// … and each of the three replacement tests, on the same value, is known false
 		okElse := true
 		for _, k := range []string{"<0", "==+Inf", ">over"} {
 			bo := have[k]
-			if bo == nil || bo.Parent() != maxStore.Parent() {
-				okElse = false
-				continue
-			}
-			tb := bo.Block()
-			if ifi, ok := tb.Instrs[len(tb.Instrs)-1].(*ssa.If); !ok || ifi.Cond != ssa.Value(bo) {
-				okElse = false
-				continue
-			}
-			fs := tb.Succs[1]
-			if !(fs == b || fs.Dominates(b)) {
+			if bo == nil || bo.Parent() != wf || !same(bo.X, maxStore.Val) || !bf.knownAt(b, bo, false) {
 				okElse = false
 			}
 		}
 		L.Check(okGuard && okElse, "substitute-branch", r.label, "running maximum", c.P.Pos(maxStore.Pos()),
-			"max is assigned only on the false branches of the three replacement tests and under `distance > max`",
+			"on every path to the assignment of max the three replacement tests on the same value came out false and `distance > max` came out true (branch facts, independent of if/else/switch/named-boolean shape)",
 			fmt.Sprintf("max can be raised by a value that is being replaced, or without the > max guard (guard: %v, else-only: %v)", okGuard, okElse))
 	}
 	// final substitution: both stores are 2*max
@@ -502,11 +504,22 @@ func (c *Ctx) checkWeightedAccumulation(rule string) {
 			L.Unknown(rule, r.label, "weights parameter", c.P.Pos(fn.Pos()), "not found")
 			continue
 		}
-		var wloads []*ssa.UnOp
+		// weight sources: a load weights[k] in the function, or a call of a helper of the module
+		// that returns p[q] (or the constant 1 when p is nil) for parameters bound to weights and k
+		type wsrc struct {
+			v  ssa.Value
+			ix ssa.Value
+		}
+		var wloads []wsrc
 		allInstrs(fn, func(in ssa.Instruction) {
 			if u, ok := in.(*ssa.UnOp); ok && u.Op == token.MUL {
 				if ia, ok := u.X.(*ssa.IndexAddr); ok && ia.X == ssa.Value(wp) {
-					wloads = append(wloads, u)
+					wloads = append(wloads, wsrc{u, ia.Index})
+				}
+			}
+			if call, ok := in.(*ssa.Call); ok {
+				if ix := weightHelperIndex(call, wp); ix != nil {
+					wloads = append(wloads, wsrc{call, ix})
 				}
 			}
 		})
@@ -527,9 +540,9 @@ func (c *Ctx) checkWeightedAccumulation(rule string) {
 				}
 			}
 		})
-		for _, wl := range wloads {
-			ia := wl.X.(*ssa.IndexAddr)
-			ix := lc.of(ia.Index).String()
+		for _, ws := range wloads {
+			wl := ws.v.(ssa.Instruction)
+			ix := lc.of(ws.ix).String()
 			name := "weights[" + stable(ix) + "]"
 			// index agreement
 			if !resIdx[ix] {
@@ -543,6 +556,9 @@ func (c *Ctx) checkWeightedAccumulation(rule string) {
 					ifi, ok := p.Instrs[len(p.Instrs)-1].(*ssa.If)
 					if !ok || !p.Dominates(wl.Block()) || p.Succs[0] == p.Succs[1] {
 						continue
+					}
+					if wl.Block().Dominates(p) {
+						continue // a test made after the lookup (the edge is a back edge of the site loop)
 					}
 					// only consider Ifs where exactly one successor leads to the load
 					r0 := p.Succs[0] == d || p.Succs[0].Dominates(wl.Block())
@@ -594,8 +610,8 @@ func (c *Ctx) checkWeightedAccumulation(rule string) {
 				return
 			}
 			carries := false
-			for _, wl := range wloads {
-				if mentions(bo.Y, wl) {
+			for _, ws := range wloads {
+				if mentions(bo.Y, ws.v) {
 					carries = true
 				}
 			}
@@ -607,6 +623,76 @@ func (c *Ctx) checkWeightedAccumulation(rule string) {
 			}
 		})
 	}
+}
+
+// weightHelperIndex: call is helper(…, weights, …, k, …) where every value the helper returns is
+// either p[q] for the parameter p bound to weights and an integer parameter q, or the constant 1;
+// returns the argument bound to q.
+func weightHelperIndex(call *ssa.Call, wp ssa.Value) ssa.Value {
+	cc := call.Common()
+	g := cc.StaticCallee()
+	if g == nil || len(g.Blocks) == 0 || len(g.Params) != len(cc.Args) || g.Signature.Results().Len() != 1 {
+		return nil
+	}
+	pi := -1
+	for i, a := range cc.Args {
+		if a == wp {
+			pi = i
+		}
+	}
+	if pi < 0 {
+		return nil
+	}
+	qi := -1
+	okAll, anyLoad := true, false
+	var leaf func(v ssa.Value, depth int)
+	leaf = func(v ssa.Value, depth int) {
+		if depth > 4 {
+			okAll = false
+			return
+		}
+		switch x := v.(type) {
+		case *ssa.Phi:
+			for _, e := range x.Edges {
+				leaf(e, depth+1)
+			}
+		case *ssa.Const:
+			if !isFloatConst(x, 1) {
+				okAll = false
+			}
+		case *ssa.UnOp:
+			ia, ok := x.X.(*ssa.IndexAddr)
+			if x.Op != token.MUL || !ok || ia.X != ssa.Value(g.Params[pi]) {
+				okAll = false
+				return
+			}
+			q, ok := ia.Index.(*ssa.Parameter)
+			if !ok {
+				okAll = false
+				return
+			}
+			for i, p := range g.Params {
+				if p == q {
+					if qi >= 0 && qi != i {
+						okAll = false
+					}
+					qi = i
+				}
+			}
+			anyLoad = true
+		default:
+			okAll = false
+		}
+	}
+	allInstrs(g, func(in ssa.Instruction) {
+		if r, ok := in.(*ssa.Return); ok && len(r.Results) == 1 {
+			leaf(r.Results[0], 0)
+		}
+	})
+	if !okAll || !anyLoad || qi < 0 {
+		return nil
+	}
+	return cc.Args[qi]
 }
 
 func accName(bo *ssa.BinOp) string {
